@@ -314,7 +314,13 @@ func genNetrc(t *rapid.T) []machine {
 		ms = append(ms, machine{Name: name, Login: genWord.Draw(t, "login"), Password: genWord.Draw(t, "pw")})
 	}
 	if rapid.IntRange(0, 2).Draw(t, "default") == 0 {
-		ms = append(ms, machine{Name: "default", Login: genWord.Draw(t, "dlogin"), Password: genWord.Draw(t, "dpw")})
+		// the default entry may stand anywhere in the file: a machine entry for the host still wins
+		d := machine{Name: "default", Login: genWord.Draw(t, "dlogin"), Password: genWord.Draw(t, "dpw")}
+		at := 0
+		for at < len(ms) && rapid.Bool().Draw(t, "dpos") {
+			at++
+		}
+		ms = append(ms[:at], append([]machine{d}, ms[at:]...)...)
 	}
 	return ms
 }
@@ -482,7 +488,12 @@ func TestLoopback(t *testing.T) {
 			}
 		}
 		if rapid.IntRange(0, 3).Draw(t, "ndefault") == 0 {
-			ms = append(ms, machine{Name: "default", Login: "l", Password: genWord.Draw(t, "dpw")})
+			d := machine{Name: "default", Login: "l", Password: genWord.Draw(t, "dpw")}
+			if rapid.Bool().Draw(t, "dfirst") {
+				ms = append([]machine{d}, ms...)
+			} else {
+				ms = append(ms, d)
+			}
 		}
 		ref := refParse(s)
 		c := tokCase{BufToken: s, Netrc: ms, Hosts: addrs}
